@@ -41,7 +41,8 @@ class Searches:
         typed_needle = Nodes.typed_value(needle)
         needle_type = type(typed_needle)
         haystack_text = (str(typed_haystack)
-                         if isinstance(typed_haystack, bool)
+                         if (isinstance(typed_haystack, bool)
+                             and not isinstance(haystack, str))
                          else str(haystack))
         matches: bool = False
 
